@@ -1,8 +1,11 @@
 """C02 - ONNX proto -> IR -> proto is lossless for every supported proto.
 
 Monitor shape: generate a well-formed proto of one of the eight message kinds the public API
-accepts (``vfpy.gen_proto``: every feature toggled independently, IR versions 3..13), push it
-through the *real* deserializer and serializer by one of the public entry points
+accepts (``vfpy.gen_proto`` extended by ``vfpy.gen_proto_c02``: every feature toggled independently,
+IR versions 3..13; value names that repeat or spell out names of another scope - a function's value,
+``{domain}::{function}/{value}`` - and values described by more than one entry where one entry says
+less than the other - an ``output``/``input`` entry without a type for a value typed by its
+initializer or by a value_info entry), push it through the *real* deserializer and serializer by one of the public entry points
 
   * ``ir.from_proto`` / ``ir.to_proto``
   * ``ir.serde.deserialize_X`` / ``serialize_X`` and ``serialize_X_into(fresh proto)``
@@ -37,6 +40,7 @@ from onnx_ir import serde
 
 from vfpy import canon_proto as cp
 from vfpy import gen_proto as gp
+from vfpy import gen_proto_c02 as gx
 from vfpy.ctx import stable_hash
 from vfpy.histories import raise_site
 
@@ -51,7 +55,11 @@ RULE = (
     "value_info, type) populated and >= 1 feature the backend corpus lacks (metadata on tensors/nodes/"
     "graphs/functions/value infos, overloads, denotations, nested optional/sequence with shape, device "
     "fields, low-bit tensors, attribute/tensor/value doc strings, quantization annotations, reference "
-    "attributes, function value_info, external tensors); distinct by hash of the serialized proto"
+    "attributes, function value_info, external tensors); distinct by hash of the serialized proto; "
+    "gen_proto_c02 adds (each toggled independently): main-graph/subgraph/later-function values named like a value "
+    "of an earlier function, like '{domain}::{function}/{value}' of one or a near miss of that spelling (IR >= 10), "
+    "untyped output entries of own initializers, value_info entries (type only) naming node-produced graph outputs "
+    "whose output entry may be untyped, untyped input entries of initializers that are inputs (IR >= 4)"
 )
 ASSUMPTIONS = [
     "protobuf reflection (descriptors, HasField, ListFields semantics) and onnx's generated message classes are trusted",
@@ -64,6 +72,11 @@ ASSUMPTIONS = [
     "value-info naming a graph input/output is never generated",
     "not generated (unsupported by serde, outside the quantifier): sparse tensors/initializers, map/opaque types, "
     "training_info, tensor segments, external_data keys other than location/offset/length, non-UTF-8 strings",
+    "names of the form '{domain}::{function}/{value}' are generated from IR 10 on only: below, serde documents that "
+    "it reads main-graph value_info of that spelling as the function's (the statement is silent on a real value of that name there)",
+    "a value_info entry naming a declared graph output carries type and shape only (metadata of two entries for one "
+    "value are merged by the one-Value-per-name IR; the statement is silent on which entry owns them) and is dropped "
+    "by canon N4 on both sides: only the output entry is judged; a forwarded input is always re-declared verbatim",
     "witnesses are shrunk by removing repeated elements / doc strings while the same signature persists; the "
     "unshrunk generated proto is kept in the replay file",
 ]
@@ -83,6 +96,9 @@ KEY_FEATURES = (
     "attr_doc", "overloads", "nested_shape", "quant_annotation", "dim_denotation", "type_denotation",
     "ref_attrs", "device_config", "node_device_config", "tensor_meta", "lowbit", "func_value_info",
     "external", "typed_storage", "captures", "func_attr_defaults",
+    # gen_proto_c02
+    "alias_names:bare", "alias_names:convention", "alias_names:near_miss", "overlap_untyped_output",
+    "overlap_output_value_info:untyped_output", "overlap_untyped_init_input",
 )
 MAX_DIFFS_PER_TRIP = 8
 
@@ -430,7 +446,7 @@ def _run(ctx, tmpdir: str) -> None:
             ctx.count("corpus_models_compared")
         else:
             kind = _draw_kind(rng)
-            gen = gp.ProtoGen(rng)
+            gen = gx.ProtoGenC02(rng)
             proto = gen.build(kind)
             used, carriers = gen.used, gen.carriers
             origin = f"generated ir_version={gen.ir_version}"
